@@ -973,7 +973,7 @@ package quickfix
 
 // resendState.FixMsgIn: verified against the interface contract except the four obligations named undecided (the inbound
 // message after the first handler call, and the well-formedness / counter bound / empty queue before each kept message)
-//@ func (s resendState) FixMsgIn [C01,C04]
+//@ func (s resendState) FixMsgIn [C01,C04,C08]
 //@   implements sessionState.FixMsgIn
 //@   atcall sendResendRequest @begin arg1 == session.store.#T
 //@   atcall sendResendRequest @end arg2 == s.resendRangeEnd
